@@ -530,4 +530,495 @@ Proof.
         -- exists J. split; [symmetry; exact He|]. exact HJ3.
         -- exists j. split; [reflexivity|]. intros j' Hj'. apply HJ3. lia.
 Qed.
+
+(* ------------------------------------------------------------------ preservation of the invariant *)
+Lemma filter_len_set_nth_same {X} (f : X -> bool) (l : list X) i s s' :
+  nth_error l i = Some s -> f s = f s' -> length (filter f (set_nth l i s')) = length (filter f l).
+Proof.
+  revert i; induction l as [|a l IH]; intros [|i] Hn Hf; simpl in *; try discriminate.
+  - inversion Hn; subst. rewrite Hf. destruct (f s'); reflexivity.
+  - destruct (f a); simpl; rewrite (IH i Hn Hf); reflexivity.
+Qed.
+
+Lemma filter_len_set_nth_le {X} (f : X -> bool) (l : list X) i s' :
+  length (filter f (set_nth l i s')) <= S (length (filter f l)).
+Proof.
+  revert i; induction l as [|a l IH]; intros [|i]; simpl; auto.
+  - destruct (f s'), (f a); simpl; lia.
+  - specialize (IH i). destruct (f a); simpl; lia.
+Qed.
+
+Lemma Inv_setc h c : Inv h -> Inv (setc h c).
+Proof. intros [H1 H2 H3 H4 H5 H6 H7 H8 H9 H10 H11]. constructor; auto. Qed.
+
+Lemma absl_setc h c : absl (setc h c) = absl h.
+Proof. reflexivity. Qed.
+
+(* replace the element of a live cell by an eq one *)
+Lemma Inv_replace h n hh y x fl :
+  Inv h -> livec h n hh y -> eqf y x = true -> hh = H x ->
+  let h' := {| entries := entries h; els := set_nth (els h) n (Some (hh, x));
+               h_els_num := h_els_num h; els_start := els_start h; els_bound := els_bound h;
+               collisions := collisions h; flog := fl |} in
+  Inv h' /\ absl h' = areplace (absl h) x /\ afind (absl h) x = Some y.
+Proof.
+  intros Hi Hl Heq Hhh h'.
+  assert (Hn : n < length (els h)).
+  { destruct Hl as [_ [Hc _]]. apply cell_at_nth in Hc. apply nth_error_Some. congruence. }
+  assert (Hcell : forall m, cell_at h' m = if Nat.eqb n m then Some (hh, x) else cell_at h m).
+  { intros m. unfold cell_at, h'. cbn [els]. rewrite nth_error_set_nth.
+    destruct (Nat.eqb_spec n m); auto. destruct (Nat.ltb_spec n (length (els h))); auto. lia. }
+  assert (Hlive : forall m hh' y', livec h' m hh' y' <->
+                    (m = n /\ hh' = hh /\ y' = x) \/ (m <> n /\ livec h m hh' y')).
+  { intros m hh' y'. unfold livec. rewrite Hcell. change (els_bound h') with (els_bound h).
+    destruct (Nat.eqb_spec n m) as [<-|Hne]; split.
+    - intros [H1 [H2 H3]]. inversion H2; subst. left. auto.
+    - intros [[_ [-> ->]]|[Hc _]]; [|congruence]. destruct Hl as [L1 [L2 L3]]. auto.
+    - intros Hm. right. split; [congruence|exact Hm].
+    - intros [[Hc _]|[_ Hm]]; [congruence|exact Hm]. }
+  destruct (absl_split h n hh y Hl) as [c1 [c2 [E1 [E2 [E3 [E4 E5]]]]]].
+  assert (Hothers : forall y', In y' (abs_cells c1 ++ abs_cells c2) -> eqf y' x = false).
+  { intros y' Hin. destruct (E5 y' Hin) as [n' [hh' [Hl' Hne]]].
+    pose proof (inv_neq h Hi n' n hh' y' hh y Hl' Hl Hne) as Hneq.
+    destruct (eqf y' x) eqn:E; auto.
+    rewrite (eqf_trans y' x y E) in Hneq; [discriminate|]. rewrite eqf_sym. exact Heq. }
+  assert (Habs' : absl h' = abs_cells c1 ++ x :: abs_cells c2).
+  { unfold absl, h'. cbn [els els_bound]. rewrite E4, abs_cells_app. simpl.
+    destruct Hl as [_ [_ Hnz]]. destruct (N.eqb_spec hh 0); [contradiction|reflexivity]. }
+  split; [|split].
+  - constructor.
+    + exact (inv_pow h Hi).
+    + cbn. rewrite set_nth_length. exact (inv_len h Hi).
+    + exact (inv_start h Hi).
+    + cbn. rewrite set_nth_length. exact (inv_bound h Hi).
+    + intros i Hlt. cbn in *. rewrite nth_error_set_nth. destruct (Nat.eqb_spec n i).
+      * destruct (Nat.ltb_spec n (length (els h))); [eexists; reflexivity|lia].
+      * apply (inv_def h Hi). exact Hlt.
+    + intros p m Hp. destruct (inv_ix h Hi p m Hp) as [hh' [y' Hm]].
+      destruct (Nat.eq_dec m n) as [->|Hne].
+      * exists hh, x. apply Hlive. left. auto.
+      * exists hh', y'. apply Hlive. right. auto.
+    + exact (inv_inj h Hi).
+    + intros m hh' y' Hm. apply Hlive in Hm. destruct Hm as [[-> [-> ->]]|[Hne Hm]].
+      * split; [exact Hhh|]. destruct (inv_reach h Hi n hh y Hl) as [_ Hr]. exact Hr.
+      * exact (inv_reach h Hi m hh' y' Hm).
+    + intros m m' hh1 y1 hh2 y2 Hm Hm' Hne. apply Hlive in Hm. apply Hlive in Hm'.
+      destruct Hm as [[-> [-> ->]]|[Hn1 Hm]], Hm' as [[-> [-> ->]]|[Hn2 Hm']]; try congruence.
+      * pose proof (inv_neq h Hi n m' hh y hh2 y2 Hl Hm' Hne) as Hq.
+        destruct (eqf x y2) eqn:E; auto. rewrite (eqf_trans y x y2 Heq E) in Hq. discriminate.
+      * pose proof (inv_neq h Hi m n hh1 y1 hh y Hm Hl Hne) as Hq.
+        destruct (eqf y1 x) eqn:E; auto.
+        rewrite (eqf_trans y1 x y E) in Hq; [discriminate|]. rewrite eqf_sym. exact Heq.
+      * exact (inv_neq h Hi m m' hh1 y1 hh2 y2 Hm Hm' Hne).
+    + exact (inv_cnt h Hi).
+    + change (h_els_num h') with (h_els_num h). rewrite (inv_num h Hi), Habs', E3.
+      rewrite !app_length. reflexivity.
+  - rewrite Habs', E3. symmetry. apply areplace_mid; auto.
+    intros y' Hy'. apply Hothers. apply in_or_app. left. exact Hy'.
+  - rewrite E3. apply afind_mid; auto.
+    intros y' Hy'. apply Hothers. apply in_or_app. left. exact Hy'.
+Qed.
+
+(* delete a live cell: its entry becomes a tombstone, its hash HTAB_DELETED_HASH *)
+Lemma Inv_delete h e n hh y x fl :
+  Inv h -> livec h n hh y -> nth_error (entries h) e = Some (Ix n) -> eqf y x = true ->
+  let h' := {| entries := set_nth (entries h) e Deleted; els := set_nth (els h) n (Some (0%N, y));
+               h_els_num := pred (h_els_num h); els_start := els_start h; els_bound := els_bound h;
+               collisions := collisions h; flog := fl |} in
+  Inv h' /\ absl h' = aremove (absl h) x /\ afind (absl h) x = Some y.
+Proof.
+  intros Hi Hl He Heq h'.
+  assert (Hn : n < length (els h)).
+  { destruct Hl as [_ [Hc _]]. apply cell_at_nth in Hc. apply nth_error_Some. congruence. }
+  assert (Hel : e < length (entries h)) by (apply nth_error_Some; congruence).
+  assert (Hcell : forall m, cell_at h' m = if Nat.eqb n m then Some (0%N, y) else cell_at h m).
+  { intros m. unfold cell_at, h'. cbn [els]. rewrite nth_error_set_nth.
+    destruct (Nat.eqb_spec n m); auto. destruct (Nat.ltb_spec n (length (els h))); auto. lia. }
+  assert (Hlive : forall m hh' y', livec h' m hh' y' <-> (m <> n /\ livec h m hh' y')).
+  { intros m hh' y'. unfold livec. rewrite Hcell. change (els_bound h') with (els_bound h).
+    destruct (Nat.eqb_spec n m) as [<-|Hne]; split.
+    - intros [H1 [H2 H3]]. inversion H2; subst. contradiction.
+    - intros [Hc _]. congruence.
+    - intros Hm. split; [congruence|exact Hm].
+    - intros [_ Hm]. exact Hm. }
+  assert (Hent : forall p, nth_error (entries h') p = if Nat.eqb e p then Some Deleted else nth_error (entries h) p).
+  { intros p. unfold h'. cbn [entries]. rewrite nth_error_set_nth.
+    destruct (Nat.eqb_spec e p); auto. destruct (Nat.ltb_spec e (length (entries h))); auto. lia. }
+  assert (Hmask : maskN h' = maskN h).
+  { unfold maskN, h'. cbn [entries]. rewrite set_nth_length. reflexivity. }
+  assert (Hpath : forall hash j, on_path h' hash j = on_path h hash j).
+  { intros hash j. unfold on_path. rewrite Hmask. reflexivity. }
+  destruct (absl_split h n hh y Hl) as [c1 [c2 [E1 [E2 [E3 [E4 E5]]]]]].
+  assert (Hothers : forall y', In y' (abs_cells c1 ++ abs_cells c2) -> eqf y' x = false).
+  { intros y' Hin. destruct (E5 y' Hin) as [n' [hh' [Hl' Hne]]].
+    pose proof (inv_neq h Hi n' n hh' y' hh y Hl' Hl Hne) as Hneq.
+    destruct (eqf y' x) eqn:E; auto.
+    rewrite (eqf_trans y' x y E) in Hneq; [discriminate|]. rewrite eqf_sym. exact Heq. }
+  assert (Habs' : absl h' = abs_cells c1 ++ abs_cells c2).
+  { unfold absl, h'. cbn [els els_bound]. rewrite E4, abs_cells_app. reflexivity. }
+  split; [|split].
+  - constructor.
+    + cbn. rewrite set_nth_length. exact (inv_pow h Hi).
+    + cbn. rewrite !set_nth_length. exact (inv_len h Hi).
+    + exact (inv_start h Hi).
+    + cbn. rewrite set_nth_length. exact (inv_bound h Hi).
+    + intros i Hlt. cbn in *. rewrite nth_error_set_nth. destruct (Nat.eqb_spec n i).
+      * destruct (Nat.ltb_spec n (length (els h))); [eexists; reflexivity|lia].
+      * apply (inv_def h Hi). exact Hlt.
+    + intros p m Hp. rewrite Hent in Hp. destruct (Nat.eqb_spec e p) as [->|Hne]; [discriminate|].
+      destruct (inv_ix h Hi p m Hp) as [hh' [y' Hm]]. exists hh', y'. apply Hlive. split; [|exact Hm].
+      intros ->. apply Hne. apply (inv_inj h Hi e p n He Hp).
+    + intros p q m Hp Hq. rewrite Hent in Hp, Hq.
+      destruct (Nat.eqb_spec e p); [discriminate|]. destruct (Nat.eqb_spec e q); [discriminate|].
+      apply (inv_inj h Hi p q m Hp Hq).
+    + intros m hh' y' Hm. apply Hlive in Hm. destruct Hm as [Hne Hm].
+      destruct (inv_reach h Hi m hh' y' Hm) as [R1 [j [R2 R3]]]. split; [exact R1|].
+      exists j. split.
+      * rewrite Hpath, Hent. destruct (Nat.eqb_spec e (on_path h hh' j)) as [E|E]; [|exact R2].
+        rewrite <- E in R2. rewrite He in R2. inversion R2. congruence.
+      * intros j' Hj'. rewrite Hpath, Hent. destruct (Nat.eqb_spec e (on_path h hh' j')).
+        -- exists Deleted. split; [reflexivity|discriminate].
+        -- apply R3. exact Hj'.
+    + intros m m' hh1 y1 hh2 y2 Hm Hm' Hne. apply Hlive in Hm. apply Hlive in Hm'.
+      destruct Hm as [_ Hm], Hm' as [_ Hm']. exact (inv_neq h Hi m m' hh1 y1 hh2 y2 Hm Hm' Hne).
+    + cbn. rewrite (filter_len_set_nth_same nonempty (entries h) e (Ix n) Deleted He eq_refl).
+      exact (inv_cnt h Hi).
+    + change (h_els_num h') with (pred (h_els_num h)). rewrite (inv_num h Hi), Habs', E3.
+      rewrite !app_length. simpl. lia.
+  - rewrite Habs', E3. symmetry. apply aremove_mid; auto.
+    intros y' Hy'. apply Hothers. apply in_or_app. left. exact Hy'.
+  - rewrite E3. apply afind_mid; auto.
+    intros y' Hy'. apply Hothers. apply in_or_app. left. exact Hy'.
+Qed.
+
+(* insert a new element (no live cell is eq to it) through an Empty or Deleted entry on its path *)
+Lemma Inv_insert h t x fl c :
+  Inv h -> els_bound h < length (els h) ->
+  (forall n hh y, livec h n hh y -> eqf y x = false) ->
+  (nth_error (entries h) t = Some Empty \/ nth_error (entries h) t = Some Deleted) ->
+  (exists j, on_path h (H x) j = t /\
+             forall j', j' < j -> exists sl, nth_error (entries h) (on_path h (H x) j') = Some sl /\ sl <> Empty) ->
+  let h' := {| entries := set_nth (entries h) t (Ix (els_bound h));
+               els := set_nth (els h) (els_bound h) (Some (H x, x));
+               h_els_num := S (h_els_num h); els_start := els_start h; els_bound := S (els_bound h);
+               collisions := c; flog := fl |} in
+  Inv h' /\ absl h' = absl h ++ [x].
+Proof.
+  intros Hi Hroom Hnew Ht [jt [Hjt1 Hjt2]] h'. set (b := els_bound h) in *.
+  destruct (bump_range x) as [_ Hnz].
+  assert (Htl : t < length (entries h)) by (apply nth_error_Some; destruct Ht as [E|E]; rewrite E; discriminate).
+  assert (Hcell : forall m, cell_at h' m = if Nat.eqb b m then Some (H x, x) else cell_at h m).
+  { intros m. unfold cell_at, h'. cbn [els]. rewrite nth_error_set_nth.
+    destruct (Nat.eqb_spec b m); auto. destruct (Nat.ltb_spec b (length (els h))); auto. lia. }
+  assert (Hlive : forall m hh' y', livec h' m hh' y' <->
+                    (m = b /\ hh' = H x /\ y' = x) \/ livec h m hh' y').
+  { intros m hh' y'. unfold livec. rewrite Hcell. change (els_bound h') with (S b). fold b.
+    destruct (Nat.eqb_spec b m) as [<-|Hne]; split.
+    - intros [H1 [H2 H3]]. inversion H2; subst. left. auto.
+    - intros [[_ [-> ->]]|[Hc _]]; [auto|lia].
+    - intros [H1 Hm]. right. split; [lia|exact Hm].
+    - intros [[Hc _]|[H1 Hm]]; [congruence|]. split; [lia|exact Hm]. }
+  assert (Hent : forall p, nth_error (entries h') p = if Nat.eqb t p then Some (Ix b) else nth_error (entries h) p).
+  { intros p. unfold h'. cbn [entries]. rewrite nth_error_set_nth.
+    destruct (Nat.eqb_spec t p); auto. destruct (Nat.ltb_spec t (length (entries h))); auto. lia. }
+  assert (Hmask : maskN h' = maskN h).
+  { unfold maskN, h'. cbn [entries]. rewrite set_nth_length. reflexivity. }
+  assert (Hpath : forall hash j, on_path h' hash j = on_path h hash j).
+  { intros hash j. unfold on_path. rewrite Hmask. reflexivity. }
+  assert (Hnot_ix : forall m, nth_error (entries h) t <> Some (Ix m)).
+  { intros m E. destruct Ht as [E'|E']; rewrite E' in E; discriminate. }
+  assert (Hkeep : forall p sl, nth_error (entries h) p = Some sl -> sl <> Empty ->
+                               exists sl', nth_error (entries h') p = Some sl' /\ sl' <> Empty).
+  { intros p sl Hp Hne. rewrite Hent. destruct (Nat.eqb_spec t p).
+    - exists (Ix b). split; [reflexivity|discriminate].
+    - exists sl. auto. }
+  assert (Habs' : absl h' = absl h ++ [x]).
+  { unfold absl, h'. cbn [els els_bound]. fold b. rewrite firstn_S_set_nth by exact Hroom.
+    rewrite abs_cells_app. simpl. destruct (N.eqb_spec (H x) 0); [contradiction|reflexivity]. }
+  split; [|exact Habs'].
+  constructor.
+  - cbn. rewrite set_nth_length. exact (inv_pow h Hi).
+  - cbn. rewrite !set_nth_length. exact (inv_len h Hi).
+  - exact (inv_start h Hi).
+  - cbn. rewrite set_nth_length. fold b. lia.
+  - intros i Hlt. cbn in *. fold b in Hlt. rewrite nth_error_set_nth. fold b. destruct (Nat.eqb_spec b i).
+    + destruct (Nat.ltb_spec b (length (els h))); [eexists; reflexivity|lia].
+    + apply (inv_def h Hi). fold b. lia.
+  - intros p m Hp. rewrite Hent in Hp. destruct (Nat.eqb_spec t p) as [->|Hne].
+    + inversion Hp; subst m. exists (H x), x. apply Hlive. left. auto.
+    + destruct (inv_ix h Hi p m Hp) as [hh' [y' Hm]]. exists hh', y'. apply Hlive. right. exact Hm.
+  - intros p q m Hp Hq. rewrite Hent in Hp, Hq.
+    destruct (Nat.eqb_spec t p) as [E1|Hn1], (Nat.eqb_spec t q) as [E2|Hn2]; [congruence| | |].
+    + inversion Hp; subst m. destruct (inv_ix h Hi q b Hq) as [hh' [y' [Hlt _]]]. fold b in Hlt. lia.
+    + inversion Hq; subst m. destruct (inv_ix h Hi p b Hp) as [hh' [y' [Hlt _]]]. fold b in Hlt. lia.
+    + apply (inv_inj h Hi p q m Hp Hq).
+  - intros m hh' y' Hm. apply Hlive in Hm. destruct Hm as [[-> [-> ->]]|Hm].
+    + split; [reflexivity|]. exists jt. split.
+      * rewrite Hpath, Hjt1, Hent, Nat.eqb_refl. reflexivity.
+      * intros j' Hj'. rewrite Hpath. destruct (Hjt2 j' Hj') as [sl [Hsl Hne]]. apply (Hkeep _ sl Hsl Hne).
+    + destruct (inv_reach h Hi m hh' y' Hm) as [R1 [j [R2 R3]]]. split; [exact R1|].
+      exists j. split.
+      * rewrite Hpath, Hent. destruct (Nat.eqb_spec t (on_path h hh' j)) as [E|E]; [|exact R2].
+        rewrite <- E in R2. exfalso. apply (Hnot_ix m). exact R2.
+      * intros j' Hj'. rewrite Hpath. destruct (R3 j' Hj') as [sl [Hsl Hne]]. apply (Hkeep _ sl Hsl Hne).
+  - intros m m' hh1 y1 hh2 y2 Hm Hm' Hne. apply Hlive in Hm. apply Hlive in Hm'.
+    destruct Hm as [[-> [-> ->]]|Hm], Hm' as [[-> [-> ->]]|Hm']; try congruence.
+    + rewrite eqf_sym. apply (Hnew m' hh2 y2 Hm').
+    + apply (Hnew m hh1 y1 Hm).
+    + exact (inv_neq h Hi m m' hh1 y1 hh2 y2 Hm Hm' Hne).
+  - cbn. fold b. pose proof (filter_len_set_nth_le nonempty (entries h) t (Ix b)).
+    pose proof (inv_cnt h Hi). fold b in H0. lia.
+  - change (h_els_num h') with (S (h_els_num h)). rewrite (inv_num h Hi), Habs', app_length. simpl. lia.
+Qed.
+
+(* ------------------------------------------------------------------ one HTAB_DO without rebuild *)
+(* what one do must achieve, given the abstract map before (m), the incoming *res and free log *)
+Definition do_post (m : list A) (act : action) (x : A) (res : option A) (fl : list A)
+           (m' : list A) (found : bool) (res' : option A) (fl' : list A) : Prop :=
+  match afind m x, act with
+  | Some y, Find | Some y, Insert => m' = m /\ found = true /\ res' = Some y /\ fl' = fl
+  | Some y, Replace => m' = areplace m x /\ found = true /\ res' = Some x /\ fl' = fl ++ [y]
+  | Some y, Delete => m' = aremove m x /\ found = true /\ res' = res /\ fl' = fl ++ [y]
+  | None, Find | None, Delete => m' = m /\ found = false /\ res' = res /\ fl' = fl
+  | None, _ => m' = m ++ [x] /\ found = false /\ res' = Some x /\ fl' = fl
+  end.
+
+Definition after_rebuild (h : htab) (x : A) (act : action) (res : option A) :=
+  let mask := (N.of_nat (length (entries h)) - 1)%N in
+  let hash := H x in
+  probe (probe_fuel A h) h x hash act mask (N.land hash mask) hash None res.
+
+Lemma after_rebuild_spec h x act res :
+  Inv h -> (is_ins act = true -> els_bound h < length (els h)) ->
+  exists h' found res', after_rebuild h x act res = Some (h', found, res') /\ Inv h' /\
+    do_post (absl h) act x res (flog h) (absl h') found res' (flog h') /\
+    length (entries h') = length (entries h) /\ length (els h') = length (els h) /\
+    (act = Insert -> els_bound h' <= S (els_bound h) /\
+                     forall i, i <> els_bound h -> nth_error (els h') i = nth_error (els h) i).
+Proof.
+  intros Hi Hroom. unfold after_rebuild. cbv zeta.
+  change (N.land (H x) (N.of_nat (length (entries h)) - 1)) with (fst (pstart (maskN h) (H x))).
+  change (H x) with (snd (pstart (maskN h) (H x))) at 3.
+  change (N.of_nat (length (entries h)) - 1)%N with (maskN h).
+  rewrite probe_scan.
+  destruct (probe_outcome h x Hi) as [o [c [Hs Ho]]]. rewrite Hs.
+  pose proof (Inv_setc h c Hi) as Hic.
+  destruct o as [e n hh y|e fd].
+  - destruct Ho as [Hl [He [Hhh Heq]]].
+    destruct (Inv_replace (setc h c) n hh y x (flog h ++ [y]) Hic Hl Heq Hhh) as [Ir [Ar Af]].
+    destruct (Inv_delete (setc h c) e n hh y x (flog h ++ [y]) Hic Hl He Heq) as [Id [Ad _]].
+    rewrite absl_setc in *. unfold do_post. rewrite Af.
+    destruct act; cbn [finish].
+    + exists (setc h c), true, (Some y). split; [reflexivity|]. split; [exact Hic|].
+      split; [split; [|split; [|split]]; reflexivity|].
+      split; [reflexivity|]. split; [reflexivity|]. intros E; discriminate E.
+    + exists (setc h c), true, (Some y). split; [reflexivity|]. split; [exact Hic|].
+      split; [split; [|split; [|split]]; reflexivity|].
+      split; [reflexivity|]. split; [reflexivity|]. intros _. split; [cbn; lia|reflexivity].
+    + eexists _, true, (Some x). split; [reflexivity|]. split; [exact Ir|].
+      split; [split; [exact Ar|split; [|split]]; reflexivity|].
+      cbn. rewrite set_nth_length. split; [reflexivity|]. split; [reflexivity|]. intros E; discriminate E.
+    + eexists _, true, res. split; [reflexivity|]. split; [exact Id|].
+      split; [split; [exact Ad|split; [|split]]; reflexivity|].
+      cbn. rewrite !set_nth_length. split; [reflexivity|]. split; [reflexivity|]. intros E; discriminate E.
+  - destruct Ho as [Hnew [He [Hfd Hpath]]].
+    assert (Af : afind (absl h) x = None).
+    { apply afind_none. intros y Hy. apply absl_in in Hy. destruct Hy as [n [hh Hl]]. apply (Hnew n hh y Hl). }
+    unfold do_post. rewrite Af. cbn [finish].
+    destruct (is_ins act) eqn:Eins.
+    + specialize (Hroom eq_refl). change (els_bound (setc h c)) with (els_bound h).
+      change (els (setc h c)) with (els h).
+      destruct (Nat.ltb_spec (els_bound h) (length (els h))) as [_|Hge]; [|lia].
+      assert (Ht : nth_error (entries h) (match fd with Some d0 => d0 | None => e end) = Some Empty \/
+                   nth_error (entries h) (match fd with Some d0 => d0 | None => e end) = Some Deleted).
+      { destruct fd; auto. }
+      destruct (Inv_insert (setc h c) _ x (flog h) c Hic Hroom Hnew Ht Hpath) as [Ii Ai].
+      rewrite absl_setc in Ai.
+      eexists _, false, (Some x). split; [reflexivity|]. split; [exact Ii|].
+      split; [destruct act; try discriminate Eins; (split; [exact Ai|split; [|split]]; reflexivity)|].
+      cbn. rewrite !set_nth_length. split; [reflexivity|]. split; [reflexivity|]. intros _. split; [lia|].
+      intros i Hne. apply nth_error_set_nth_neq. auto.
+    + exists (setc h c), false, res. split; [reflexivity|]. split; [exact Hic|].
+      split; [destruct act; try discriminate Eins; (split; [|split; [|split]]; reflexivity)|].
+      split; [reflexivity|]. split; [reflexivity|]. intros ->. discriminate Eins.
+Qed.
+
+Lemma hdo_unfold d h x act res :
+  hdo (S d) h x act res =
+  match (if is_ins act && Nat.eqb (els_bound h) (length (els h)) then
+           fold_left (fun (acc : option (htab * option A)) (i : nat) =>
+                        match acc with
+                        | None => None
+                        | Some (hc, rc) =>
+                          match nth_error (els hc) i with
+                          | Some (Some (hh, y)) =>
+                            if N.eqb hh 0 then Some (hc, rc)
+                            else match hdo d hc y Insert rc with
+                                 | Some (hc', _, rc') => Some (hc', rc')
+                                 | None => None
+                                 end
+                          | _ => None
+                          end
+                        end)
+                     (seq (els_start h) (els_bound h - els_start h))
+                     (Some ({| entries := repeat Empty (2 * length (entries h));
+                               els := els h ++ repeat None (length (els h));
+                               h_els_num := 0; els_start := 0; els_bound := 0;
+                               collisions := collisions h; flog := flog h |}, res))
+         else Some (h, res)) with
+  | None => None
+  | Some (h2, res2) => after_rebuild h2 x act res2
+  end.
+Proof. reflexivity. Qed.
+
+Lemma hdo_core h x act d res :
+  Inv h -> (is_ins act = true -> els_bound h < length (els h)) ->
+  exists h' found res', hdo (S d) h x act res = Some (h', found, res') /\ Inv h' /\
+    do_post (absl h) act x res (flog h) (absl h') found res' (flog h') /\
+    length (entries h') = length (entries h) /\ length (els h') = length (els h) /\
+    (act = Insert -> els_bound h' <= S (els_bound h) /\
+                     forall i, i <> els_bound h -> nth_error (els h') i = nth_error (els h) i).
+Proof.
+  intros Hi Hroom. rewrite hdo_unfold.
+  assert (Hnr : is_ins act && Nat.eqb (els_bound h) (length (els h)) = false).
+  { destruct (is_ins act) eqn:E; [|reflexivity]. specialize (Hroom eq_refl).
+    destruct (Nat.eqb_spec (els_bound h) (length (els h))); [lia|reflexivity]. }
+  rewrite Hnr. apply after_rebuild_spec; auto.
+Qed.
+
+(* ------------------------------------------------------------------ the rebuild (growth + in-place compaction) *)
+Lemma nth_error_repeat {X} (x : X) n p y : nth_error (repeat x n) p = Some y -> y = x.
+Proof. intros E. apply nth_error_In in E. apply repeat_spec in E. exact E. Qed.
+
+Lemma filter_nonempty_repeat n : filter nonempty (repeat Empty n) = [].
+Proof. induction n; simpl; auto. Qed.
+
+Lemma Inv_fresh k n cells c fl :
+  N.of_nat n = (2 ^ k)%N -> n = 2 * length cells ->
+  Inv {| entries := repeat Empty n; els := cells; h_els_num := 0; els_start := 0; els_bound := 0;
+         collisions := c; flog := fl |}.
+Proof.
+  intros Hk Hn. constructor; cbn.
+  - exists k. rewrite repeat_length. exact Hk.
+  - rewrite repeat_length. exact Hn.
+  - reflexivity.
+  - lia.
+  - intros i Hi. lia.
+  - intros p m Hp. apply nth_error_repeat in Hp. discriminate.
+  - intros p q m Hp. apply nth_error_repeat in Hp. discriminate.
+  - intros m hh y [Hlt _]. cbn in Hlt. lia.
+  - intros m m' hh y hh' y' [Hlt _]. cbn in Hlt. lia.
+  - rewrite filter_nonempty_repeat. simpl. lia.
+  - reflexivity.
+Qed.
+
+Lemma firstn_S_nth {X} (l : list X) i c : nth_error l i = Some c -> firstn (S i) l = firstn i l ++ [c].
+Proof.
+  revert i; induction l as [|a l IH]; intros [|i] E; simpl in *; try discriminate.
+  - inversion E; reflexivity.
+  - f_equal. apply IH. exact E.
+Qed.
+
+Definition rebuild_step (d : nat) (acc : option (htab * option A)) (i : nat) : option (htab * option A) :=
+  match acc with
+  | None => None
+  | Some (hc, rc) =>
+    match nth_error (els hc) i with
+    | Some (Some (hh, y)) =>
+      if N.eqb hh 0 then Some (hc, rc)
+      else match hdo d hc y Insert rc with
+           | Some (hc', _, rc') => Some (hc', rc')
+           | None => None
+           end
+    | _ => None
+    end
+  end.
+
+(* state of the rebuild loop before index i of the old element array *)
+Definition RInv (h hc : htab) (i : nat) : Prop :=
+  Inv hc /\ length (entries hc) = 2 * length (entries h) /\ length (els hc) = 2 * length (els h) /\
+  els_bound hc <= i /\
+  (forall m, i <= m -> nth_error (els hc) m = nth_error (els h ++ repeat None (length (els h))) m) /\
+  absl hc = abs_cells (firstn i (els h)) /\ flog hc = flog h.
+
+Lemma rebuild_loop h d : Inv h -> forall n i hc rc,
+  i + n = els_bound h -> RInv h hc i ->
+  exists h2 r2, fold_left (rebuild_step (S d)) (seq i n) (Some (hc, rc)) = Some (h2, r2) /\ RInv h h2 (els_bound h).
+Proof.
+  intros Hi. induction n as [|n IH]; intros i hc rc Hin HR.
+  - simpl. exists hc, rc. split; [reflexivity|]. replace (els_bound h) with i by lia. exact HR.
+  - destruct HR as [Hic [Hle [Hlc [Hb [Hcells [Habs Hfl]]]]]].
+    assert (Hib : i < els_bound h) by lia.
+    pose proof (inv_bound h Hi) as Hbound.
+    destruct (inv_def h Hi i Hib) as [[hh y] Hcell].
+    assert (Hci : nth_error (els hc) i = Some (Some (hh, y))).
+    { rewrite Hcells by lia. rewrite nth_error_app1 by lia. exact Hcell. }
+    cbn [seq fold_left]. unfold rebuild_step at 2. rewrite Hci.
+    assert (Hfirst : firstn (S i) (els h) = firstn i (els h) ++ [Some (hh, y)]) by (apply firstn_S_nth; exact Hcell).
+    destruct (N.eqb_spec hh 0) as [Ez|Enz].
+    + apply IH; [lia|]. split; [exact Hic|]. split; [exact Hle|]. split; [exact Hlc|]. split; [lia|].
+      split; [intros m Hm; apply Hcells; lia|]. split; [|exact Hfl].
+      rewrite Hfirst, abs_cells_app, Habs. simpl. rewrite Ez. simpl. rewrite app_nil_r. reflexivity.
+    + assert (Hlive : livec h i hh y).
+      { split; [exact Hib|]. split; [apply cell_at_nth; exact Hcell|exact Enz]. }
+      assert (Hroom : is_ins Insert = true -> els_bound hc < length (els hc)) by (intros _; lia).
+      destruct (hdo_core hc y Insert d rc Hic Hroom) as [hc' [found [rc' [Hdo [Hic' [Hpost [Hle' [Hlc' Hframe]]]]]]]].
+      rewrite Hdo. destruct (Hframe eq_refl) as [Hb' Hsame].
+      assert (Hnone : afind (absl hc) y = None).
+      { apply afind_none. intros y' Hy'. rewrite Habs in Hy'. apply abs_cells_in in Hy'.
+        destruct Hy' as [i' [hh' [Hc' Hnz']]].
+        assert (Hi' : i' < i).
+        { destruct (Nat.lt_ge_cases i' i); auto. rewrite nth_error_firstn_ge in Hc' by auto. discriminate. }
+        rewrite nth_error_firstn_lt in Hc' by auto.
+        apply (inv_neq h Hi i' i hh' y' hh y); [|exact Hlive|lia].
+        split; [lia|]. split; [apply cell_at_nth; exact Hc'|exact Hnz']. }
+      unfold do_post in Hpost. rewrite Hnone in Hpost. destruct Hpost as [P1 [P2 [P3 P4]]].
+      apply IH; [lia|]. split; [exact Hic'|]. split; [lia|]. split; [lia|]. split; [lia|].
+      split; [|split].
+      * intros m Hm. rewrite Hsame by lia. apply Hcells. lia.
+      * rewrite P1, Habs, Hfirst, abs_cells_app. simpl.
+        destruct (N.eqb_spec hh 0); [contradiction|reflexivity].
+      * rewrite P4. exact Hfl.
+Qed.
+
+Lemma do_post_ins m act x res res2 fl m' found res' fl' : is_ins act = true ->
+  do_post m act x res2 fl m' found res' fl' -> do_post m act x res fl m' found res' fl'.
+Proof. unfold do_post. intros Hins. destruct (afind m x), act; try discriminate Hins; auto. Qed.
+
+(* ------------------------------------------------------------------ HTAB_DO, full *)
+Theorem hdo_spec h x act res : Inv h ->
+  exists h' found res', hdo 2 h x act res = Some (h', found, res') /\ Inv h' /\
+    do_post (absl h) act x res (flog h) (absl h') found res' (flog h').
+Proof.
+  intros Hi. rewrite hdo_unfold.
+  destruct (is_ins act && Nat.eqb (els_bound h) (length (els h))) eqn:Hreb.
+  - apply andb_true_iff in Hreb. destruct Hreb as [Hins Hfull]. apply Nat.eqb_eq in Hfull.
+    rewrite (inv_start h Hi), Nat.sub_0_r.
+    destruct (inv_pow h Hi) as [k Hk].
+    set (h1 := {| entries := repeat Empty (2 * length (entries h)); els := els h ++ repeat None (length (els h));
+                  h_els_num := 0; els_start := 0; els_bound := 0; collisions := collisions h; flog := flog h |}).
+    assert (HR1 : RInv h h1 0).
+    { split.
+      - apply (Inv_fresh (k + 1)).
+        + rewrite N.pow_add_r. change (2 ^ 1)%N with 2%N. lia.
+        + rewrite app_length, repeat_length. pose proof (inv_len h Hi). lia.
+      - cbn. rewrite repeat_length, app_length, repeat_length.
+        split; [reflexivity|]. split; [lia|]. split; [lia|]. split; [reflexivity|]. split; reflexivity. }
+    destruct (rebuild_loop h 0 Hi (els_bound h) 0 h1 res eq_refl HR1) as [h2 [r2 [Hloop HR2]]].
+    change (fold_left _ (seq 0 (els_bound h)) (Some (h1, res)))
+      with (fold_left (rebuild_step 1) (seq 0 (els_bound h)) (Some (h1, res))).
+    rewrite Hloop.
+    destruct HR2 as [Hi2 [Hle2 [Hlc2 [Hb2 [_ [Habs2 Hfl2]]]]]].
+    assert (Hpos : 0 < length (els h)).
+    { pose proof (inv_len h Hi). assert (2 ^ k <> 0)%N by (apply N.pow_nonzero; lia). lia. }
+    destruct (after_rebuild_spec h2 x act r2 Hi2) as [h' [found [res' [Hrun [Hi' [Hpost _]]]]]].
+    { intros _. lia. }
+    exists h', found, res'. split; [exact Hrun|]. split; [exact Hi'|].
+    assert (Eabs : absl h2 = absl h) by (rewrite Habs2; reflexivity).
+    rewrite Eabs, Hfl2 in Hpost. apply (do_post_ins _ _ _ res r2); auto.
+  - destruct (after_rebuild_spec h x act res Hi) as [h' [found [res' [Hrun [Hi' [Hpost _]]]]]].
+    { intros Hins. rewrite Hins in Hreb. simpl in Hreb. apply Nat.eqb_neq in Hreb.
+      pose proof (inv_bound h Hi). lia. }
+    exists h', found, res'. auto.
+Qed.
 End HtabProofs.
